@@ -68,7 +68,11 @@ def sym_rat(name: str, kind: Optional[int] = None, interp=None) -> VRat:
 
 
 def sym_obj(name: str, klass: str) -> VObj:
-    return VObj(z3.Const(name, Obj), klass)
+    """an argument object of a scenario (exists in the pre-state)"""
+    from pyvc.sym import register_old
+    o = z3.Const(name, Obj)
+    register_old(o)
+    return VObj(o, klass)
 
 
 def sym_str(name: str) -> VStr:
